@@ -178,7 +178,9 @@ class _P:
                     if n is not None and n[0] == 'b' and n[1] in ('*', '+') and \
                             ty[-1] not in '*+?' and not ty.startswith('empty-sequence'):
                         nn = self.items[self.i + 1] if self.i + 1 < len(self.items) else None
-                        if nn is not None and nn[0] == 'u':
+                        if nn is not None and (nn[0] == 'u' or nn[0] == 'a' and nn[1][:1] in '[(*'):
+                            # ('[1, 2]' or '(a)' after the indicator would read as a predicate / call,
+                            # a '*' name test as the multiplication operator)
                             # "T + - x": '+' is the occurrence indicator and the sign becomes the binary
                             # operator; the item list cannot express that reading
                             raise SyntaxErr('undecided:occurrence-indicator-then-sign')
